@@ -121,7 +121,14 @@ var cigarOps = []string{"M", "I", "D", "N", "S", "H", "P", "=", "X", "B", "?"}
 //	CigarEqual          1        1
 //	CigarMismatch       1        1
 //	CigarBack           0       -1
-func (ct CigarOpType) Consumes() Consume { return consume[ct] }
+func (ct CigarOpType) Consumes() Consume {
+	if ct > lastCigar {
+		// An operation type outside the defined range, as can be
+		// read from a BAM file, consumes nothing.
+		ct = lastCigar
+	}
+	return consume[ct]
+}
 
 // String returns the string representation of a CigarOpType.
 func (ct CigarOpType) String() string {
